@@ -17,7 +17,7 @@ func init() { register("C07", checkC07) }
 func checkC07(c *an.Ctx) {
 	c.Rule("C07.1", "execute table (= C06.3) and hook rows of the Run trace (a failing after command does not make Run return an error; a failing before command does) plus: the value stored in Task.ExitCode is the first result of IsExitStatus on that very error, through width- and sign-preserving conversions only; Execute and IsExitStatus hand the interpreter's verdict through unchanged")
 	c.Rule("C07.2", "deferred reset (E2/E4): ExitCode := 0 is executed iff the task is neither errored nor skipped; ExitCode, Errored and Skipped have no other writers than the job walk, the skip branch, the reset and constructors")
-	c.Rule("C07.3", "error chain (E7): the error of the job walk reaches main through propagating call sites only (Run → runTask / runStage → graph error → Schedule → runPipeline → runTarget → actions → app.Run → run → main); main exits non-zero exactly on a non-nil error")
+	c.Rule("C07.3", "error chain (E7): the error of the job walk reaches main through propagating call sites only (Run → runTask / runStage → graph error → Schedule → runPipeline → runTarget → actions → app.Run → run → main); main exits non-zero exactly on a non-nil error; Schedule reads the graph error after a synchronous wait for the stage goroutines")
 	c.Rule("C07.4", "sequential targets (E2/E3): every loop over the command-line arguments that runs targets does so by synchronous calls in slice order and returns on the first error")
 	c.Rule("C07.5", "the output layer cannot fail a command (io.Writer contract, = C19.1): every Write of pkg/output reports the full length on success — a short count from a decorator travels up through the MultiWriters into os/exec's copy of the command's output and comes back from the interpreter as an error that is not an exit status, which marks a task errored although all its commands exited 0")
 	c.Rule("C07.6", "a stage's failure is forgiven only by the stage (E5 provenance): what internal/config stores into Stage.AllowFailure is the stage definition's allow_failure as decoded (or a constant) — the scheduler drops every error of a stage that allows failure, interrupted and timed-out runs included, so a flag inherited from the task (which tolerates exit statuses only) turns those into a pipeline reported as successful")
@@ -305,7 +305,7 @@ func deferredReset(c *an.Ctx, r *runnerRoles, rule string) {
 func errorChainToMain(c *an.Ctx, r *runnerRoles, rule string) {
 	p := c.P
 	runStage := findRunStage(p)
-	schedule := p.Func("pkg/scheduler", "Scheduler", "Schedule")
+	_, schedule, graphParam := scheduleImpl(p)
 	if runStage == nil || schedule == nil {
 		c.Und(rule, "scheduler:runner-caller", token.NoPos, "cannot find Scheduler.Schedule and the function of pkg/scheduler that invokes Runner.Run")
 		return
@@ -373,12 +373,12 @@ func errorChainToMain(c *an.Ctx, r *runnerRoles, rule string) {
 			for _, v := range an.Sources(an.RetVal(ret, 0)) {
 				if call, ok := v.(*ssa.Call); ok {
 					for _, callee := range p.Callees(&call.Call) {
-						if callee == last && an.SameValue(call.Call.Args[0], schedule.Params[1]) {
+						if callee == last && an.SameValue(call.Call.Args[0], graphParam) {
 							good = true
 						}
 					}
 				}
-				if ap := an.AccessPath(v); ap.LastField() == "error" && an.SameValue(ap.Base, schedule.Params[1]) {
+				if ap := an.AccessPath(v); ap.LastField() == "error" && an.SameValue(ap.Base, graphParam) {
 					good = true
 				}
 			}
